@@ -8,7 +8,7 @@ from sim import Config, var, W, R, P, A, N, D, RW
 PROP = "C13"
 LEVEL = "exploration"
 RULE = ("RPDO tables (every subset of the 4 channels x every synchronous/asynchronous assignment, enumerated) and random tables x mappings "
-        "incl. dummy entries 0002h..0007h at every position and 24-bit mappings (<= 8 bytes) x histories of RPDO frames (DLC >= mapped "
+        "incl. dummy entries 0002h..0007h at every position, 24-bit mappings and objects of 5, 6 and 8 bytes (<= 8 bytes) x histories of RPDO frames (DLC >= mapped "
         "length), SYNCs (before / after / without reception, repeated), local writes, NMT changes, frames for disabled RPDOs and other "
         "identifiers, COPdoReceive veto; after EVERY step the whole object storage is compared with the reference model, plus "
         "COPdoReceive / COPdoSyncUpdate callbacks; non-trivial = history in which >= 1 RPDO was applied; distinct by (table, script)")
@@ -41,6 +41,13 @@ def gen_world(rng, chans=None, sync_mask=None):
         objs[(0x2200, i)] = [w, v]
         cfg.add(var(0x2200, i, RW | P, w, v))
         pool.append((0x2200, i, w))
+    # mapped objects larger than 4 bytes (the application copies them in CORpdoWriteData)
+    for i, w in enumerate((5, 6, 8)):
+        d = gen.rand_bytes(rng, w)
+        objs[(0x2210, i)] = [w, int.from_bytes(d, "little")]
+        cfg.add(S.domain(0x2210, i, w, d, flags=RW | P))
+        if sync_mask is None:
+            pool.append((0x2210, i, w))
     if chans is None:
         chans = [c for c in range(4) if rng.random() < 0.65] or [rng.randrange(4)]
     rps = []
@@ -118,7 +125,7 @@ def run_history(res, exe, rng, first, chans=None, sync_mask=None):
         d = sim.dump()
         for k, tok, b in zip(order, d, base):
             if k in objs:
-                if int(tok, 16) != objs[k][1]:
+                if (int(tok, 16) if objs[k][0] <= 4 else int.from_bytes(bytes.fromhex(tok), "little")) != objs[k][1]:
                     return fail("storage/mapped-object", "object %04x:%d holds %s, reference %x" % (k[0], k[1], tok, objs[k][1]), "%x" % objs[k][1], tok)
             elif tok != b:
                 return fail("storage/other-object", "object %04x:%d changed from %s to %s" % (k[0], k[1], b, tok))
@@ -161,7 +168,7 @@ def run_history(res, exe, rng, first, chans=None, sync_mask=None):
                 if check(evs, 0, ws) is not True:
                     return
             elif x < 0.72:
-                k = rng.choice(list(objs))
+                k = rng.choice([k_ for k_ in objs if objs[k_][0] <= 4])
                 w = objs[k][0]
                 v = rng.getrandbits(8 * w)
                 script.append("local write %04x:%d = %x" % (k[0], k[1], v))
